@@ -6,8 +6,9 @@
 // LOG (one record per line; threads t = virtual thread index, thread ids are printed as t+1, 0 = abandoned;
 //      segments s are numbered in the order in which the harness first meets them; a segment address that is re-used after
 //      the segment was freed gets a new number)
-//   H <rof> <nthreads>                      header: option abandoned_reclaim_on_free, number of virtual threads
-//   N <s> <arena 0|1> <tid> <marked 0|1> <arena index> <block index>
+//   H <rof> <nthreads> <sp of t0> <sp of t1> ...   header: option abandoned_reclaim_on_free, number of virtual threads, the sub-process
+//                                           (0 = main, 1 = the second one of the VERIF_SUBPROC variant) each thread belongs to
+//   N <s> <arena 0|1> <tid> <marked 0|1> <arena index> <block index> <sub-process>
 //                                           the harness meets segment s (a block of it was returned by mi_malloc / passed to mi_free)
 //   G <s> <u> <tf> <nv> <lv> <v>            page-level summary of segment s, read from the real pages: u = sum of page->used over its
 //                                           pages, tf = blocks on page thread-free lists, nv = 1 when every used page carries
@@ -46,6 +47,9 @@ static int ab_live[AB_MAXSEG]; static int nab_live = 0;   // numbers of the segm
 static void* ab_hold[MAXT];                               // block of the running mi_free / returned by the last mi_malloc of each thread
 static int ab_lastseg[MAXT];                              // the segment of the last record of each thread
 static long ab_lines = 0;
+static mi_subproc_t* ab_sps[2] = { NULL, NULL };                // sub-processes: 0 = the main one, 1 = a second one (VERIF_SUBPROC: odd threads join it)
+static int ab_joined[MAXT];
+static int ab_spnum(mi_subproc_t* sp) { return (ab_sps[1] != NULL && sp == ab_sps[1]) ? 1 : 0; }
 
 static int ab_tid(uintptr_t raw) { return (int)(raw / 0x10000); }
 static int ab_find(mi_segment_t* sg) { for (int i = 0; i < nab_live; i++) if (absegs[ab_live[i]].seg == sg) return ab_live[i]; return -1; }
@@ -71,7 +75,7 @@ static int ab_register(mi_segment_t* sg) {
   e->arena = (sg->memid.memkind == MI_MEM_ARENA);
   if (e->arena) { mi_bitmap_index_t bi; mi_arena_memid_indices(sg->memid, &e->aidx, &bi); e->bidx = bi; }
   ab_live[nab_live++] = s;
-  printf("N %d %d %d %d %zu %zu\n", s, e->arena, ab_tid(e->shadow), e->arena ? ab_bit(e) : ab_in_oslist(sg), e->aidx, e->bidx);
+  printf("N %d %d %d %d %zu %zu %d\n", s, e->arena, ab_tid(e->shadow), e->arena ? ab_bit(e) : ab_in_oslist(sg), e->aidx, e->bidx, ab_spnum(sg->subproc));
   return s;
 }
 
@@ -154,20 +158,22 @@ static void ab_oslist(mi_subproc_t* sp) {
 static void ab_post(int op, volatile void* p, int ok, uintptr_t oldv) {
   int so = sched_on; sched_on = 0;
   uintptr_t newv = (op == VOP_LOCK || op == VOP_LOCKB || op == VOP_UNLOCK) ? 0 : *(volatile uintptr_t*)p;
-  mi_subproc_t* sp = &mi_subproc_default;
   const char* lk = (op == VOP_LOCK) ? "K" : (op == VOP_LOCKB) ? "B" : (op == VOP_UNLOCK) ? "U" : NULL;
   // sub-process words
-  if (p == (void*)&sp->abandoned_count || p == (void*)&sp->abandoned_os_list_count) {
-    const char* loc = (p == (void*)&sp->abandoned_count) ? "count" : "oscount";
-    const char* k = (op == VOP_LOAD) ? "L" : (op == VOP_ADD) ? "+" : (op == VOP_SUB) ? "-" : "?";
-    ab_before(-1); printf("S %d %s %s 0 %ld -> %ld\n", cur, k, loc, (long)oldv, (long)newv); goto done;
-  }
-  if (p == (void*)&sp->abandoned_os_lock || p == (void*)&sp->abandoned_os_visit_lock) {
-    const char* loc = (p == (void*)&sp->abandoned_os_lock) ? "lock" : "vlock";
-    ab_before(-1);
-    if (op == VOP_UNLOCK) { printf("S %d U %s 0 1 -> 0", cur, loc); if (p == (void*)&sp->abandoned_os_lock) { printf(" :"); ab_oslist(sp); } printf("\n"); }
-    else printf("S %d %s %s 0 %d -> 1\n", cur, lk ? lk : "?", loc, (op == VOP_LOCK && !ok) ? 1 : 0);
-    goto done;
+  for (int spn = 0; spn < 2; spn++) {
+    mi_subproc_t* sp = ab_sps[spn]; if (sp == NULL) continue;
+    if (p == (void*)&sp->abandoned_count || p == (void*)&sp->abandoned_os_list_count) {
+      const char* loc = (p == (void*)&sp->abandoned_count) ? "count" : "oscount";
+      const char* k = (op == VOP_LOAD) ? "L" : (op == VOP_ADD) ? "+" : (op == VOP_SUB) ? "-" : "?";
+      ab_before(-1); printf("S %d %s %s %d %ld -> %ld\n", cur, k, loc, spn, (long)oldv, (long)newv); goto done;
+    }
+    if (p == (void*)&sp->abandoned_os_lock || p == (void*)&sp->abandoned_os_visit_lock) {
+      const char* loc = (p == (void*)&sp->abandoned_os_lock) ? "lock" : "vlock";
+      ab_before(-1);
+      if (op == VOP_UNLOCK) { printf("S %d U %s %d 1 -> 0", cur, loc, spn); if (p == (void*)&sp->abandoned_os_lock) { printf(" :"); ab_oslist(sp); } printf("\n"); }
+      else printf("S %d %s %s %d %d -> 1\n", cur, lk ? lk : "?", loc, spn, (op == VOP_LOCK && !ok) ? 1 : 0);
+      goto done;
+    }
   }
   // arena words
   for (size_t i = 0; i < ab_arena_count(); i++) {
@@ -248,6 +254,7 @@ static void ab_free(void* p) {
 }
 static void* ab_malloc(size_t size) {
   if (!ablog || !sched_on) return (mi_malloc)(size);
+  if (ab_sps[1] != NULL && (cur & 1) && !ab_joined[cur]) { ab_joined[cur] = 1; int so = sched_on; sched_on = 0; mi_subproc_add_current_thread((mi_subproc_id_t)ab_sps[1]); sched_on = so; }
   int me = cur; ab_hold[me] = NULL; ab_call("malloc", NULL, -1); void* p = (mi_malloc)(size); ab_hold[me] = p; ab_ret(p); return p;
 }
 static void ab_collect(bool force) {
@@ -263,7 +270,11 @@ static void ab_init(void) {
   ab_debug = getenv("VERIF_AB_DEBUG") != NULL;
   struct sigaction sa; memset(&sa, 0, sizeof sa); sa.sa_handler = ab_segv; sa.sa_flags = SA_NODEFER; sigemptyset(&sa.sa_mask);
   sigaction(SIGSEGV, &sa, NULL); sigaction(SIGBUS, &sa, NULL);
-  printf("H %d %d\n", (int)mi_option_get(mi_option_abandoned_reclaim_on_free), nthreads);
+  ab_sps[0] = &mi_subproc_default;
+  if (getenv("VERIF_SUBPROC")) ab_sps[1] = (mi_subproc_t*)mi_subproc_new();
+  printf("H %d %d", (int)mi_option_get(mi_option_abandoned_reclaim_on_free), nthreads);
+  for (int t = 0; t < nthreads; t++) printf(" %d", (ab_sps[1] != NULL && (t & 1)) ? 1 : 0);
+  printf("\n");
 }
 #define mi_free(p)        ab_free(p)
 #define mi_malloc(n)      ab_malloc(n)
